@@ -348,6 +348,6 @@ pub fn c18(tier: Tier) -> PropSpec {
             "nogoods mention only variables below the store size (as every caller does)",
         ],
         exhaustive: false,
-        parts: vec![Part::new("history", tier.pick(20000, 400000), move || ng_case(nmax), c18_check)],
+        parts: vec![Part::new("history", tier.pick(300000, 3000000), move || ng_case(nmax), c18_check)],
     }
 }
